@@ -495,9 +495,25 @@ def run(ctx):
     for inst_, v_ in sorted(setup_sites(db, rep).items()):
         r3.check(v_[0], inst_, v_[1], v_[2], v_[3])
     rc = prog.fn('smtp_rcpt', 'qmail-smtpd.c')
-    suf = [c for c in rc.calls('stralloc_cats') if c.args[1].path() == 'G:relayclient']
-    r3.check(bool(suf) and all(any(branch_zero_test(c, t, lambda v: v.path() == 'G:relayclient') == 'nonzero' for c, t in rc.guards(s_) or []) for s_ in suf),
-             'relay-suffix-only-under-relayclient', rc.unit + ':smtp_rcpt', 'the relay suffix is appended on a path where RELAYCLIENT is not known to be set')
+    # RCPT with RELAYCLIENT unset and set: the address is extended exactly for the relay client
+    rel_bad = None
+    for rcv in (0, ('str', '@relay.example')):
+        HR = SmtpdHooks()
+        HR.handler, HR.pre = 'smtp_rcpt', (1, 0, 0)
+        eng = Engine(db, prog, HR)
+        eng.run(rc, {'G:seenmail': fs(1), 'G:flagbarf': fs(0), '$rcpt': fs(0), 'G:relayclient': fs(rcv)})
+        rep.count_states(eng.states, eng.transitions)
+        n250 = 0
+        for h_, pre_, post_, ev_, tr_ in HR.trans:
+            if '250' not in reply(ev_):
+                continue
+            n250 += 1
+            ext = [e for e in ev_ if e[0] == 'addr+=']
+            if (bool(ext) != bool(rcv) or (rcv and any(e[0] == 'addrallowed' for e in ev_))) and rel_bad is None:
+                rel_bad = ('RCPT accepted with RELAYCLIENT %s: the address is %s%s' % ('set' if rcv else 'unset', 'extended' if ext else 'not extended', ', after asking rcpthosts' if rcv and any(e[0] == 'addrallowed' for e in ev_) else ''), tr_)
+        if not n250 and rel_bad is None:
+            raise AnalysisBroken('smtp_rcpt: no accepted RCPT with RELAYCLIENT %s' % ('set' if rcv else 'unset'))
+    r3.check(rel_bad is None, 'relay-suffix-only-under-relayclient', rc.unit + ':smtp_rcpt', rel_bad[0] if rel_bad else '', rel_bad[1] if rel_bad else None)
     badg = [g_ for g_ in gate_rows if not g_[0]]
     if not gate_rows and not n_gates:
         raise AnalysisBroken('smtp_rcpt: the rcpthosts() gate was never reached')
